@@ -538,6 +538,18 @@ def check_case(case, ctx):
             continue
         ctx.case('%s:cofactor:%r:%r' % (sh, sorted(tt), sorted(ff)), bool(tt or ff), cls='op:replace_inputs',
                  sample={'net': case['net'], 'to_true': tt, 'to_false': ff} if (tt and ff) else None)
+    # ---- the circuit's own live lists handed back as arguments ("fix all inputs", "fix what the accessor returns")
+    if net.inputs and rng.random() < 0.5:
+        for which in ('true', 'false'):
+            try:
+                c2 = _build(net, case, rng)
+                if which == 'true':
+                    c2.replace_inputs(c2.inputs, [])
+                else:
+                    c2.replace_inputs([], c2.inputs)
+                ctx.count('replace_inputs:live_list_argument')
+            except Exception as e:
+                ctx.unexpected('Circuit.replace_inputs', e, dict(case, failing=['replace_inputs', 'live circuit.inputs as ' + which]))
     # ---- subcircuit replacement
     for k in range(case.get('slices', 4)):
         sl = netgen.random_slice(net, rng, p_cut=rng.choice([0.2, 0.4, 0.6]))
